@@ -1,15 +1,16 @@
 #!/usr/bin/env python3
-"""Evidence that the regenerated tie bites — ssa2lean2 (functions with loops, external call, tables).
+"""Evidence that the regenerated tie bites — ssa2lean3 (functions that allocate and write slices, nested loops,
+methods that update a slice held by the receiver; plus the cases of ssa2lean2, whose targets this tool reproduces).
 
 For each seeded edit of a target function this script
   1. copies the repo to a scratch directory under /tmp (never touches the repo itself),
   2. applies the edit to the copy,
   3. runs ssa2lean on the copy into a scratch output directory,
   4. inlines the regenerated definition textually into a scratch copy of the hand-written tie file
-     (`import Generated.Ssa2.<f>` is replaced by the text of the regenerated file; helper modules of the tie that
-     themselves import the generated module, e.g. `LowProofs.Tie2.<x>_L`, are inlined too, recursively) and checks
-     the result with `lake env lean` (run in the lean project, which only has to have LowModel, Generated.Ssa2.* and
-     LowProofs.Tie2.* built from the unmodified source).
+     (`import Generated.Ssa3.<f>` — `Ssa2` for the targets of ssa2lean2 — is replaced by the text of the regenerated
+     file; helper modules of the tie that themselves import the generated module, e.g. `LowProofs.Tie3.<x>_L`, are
+     inlined too, recursively) and checks the result with `lake env lean` (run in the lean project, which only has to
+     have LowModel, Generated.Ssa2/3.* and LowProofs.Tie2/3.* built from the unmodified source).
 
 Expectations
   break    a semantic mutation: the tie theorem must NO LONGER compile, while the regenerated definition on
@@ -23,8 +24,8 @@ The unmodified copy is checked first (baseline: every tie must compile against a
 The repo is taken as `git archive HEAD` of --repo (a clean export: the working tree may be in use by other checks),
 or copied as it is with --worktree.
 
-usage: selftest.py [--repo /repo] [--worktree] [--lean /verif/lean] [--bin bin/ssa2lean2] [--json out.json] [--keep] [-j N] [-v]
-       [--only substring]
+usage: selftest.py [--repo /repo] [--worktree] [--lean /verif/lean] [--bin bin/ssa2lean3] [--json out.json] [--keep] [-j N] [-v]
+       [--only substring] [--gen 3|2|all]
 exit status 0 iff every break/survive/unsupported/nobuild expectation holds and the baseline passes.
 """
 import argparse, concurrent.futures, json, os, re, shutil, subprocess, sys, tempfile, time
@@ -46,7 +47,8 @@ def edit_in_func(path, func_anchor, old, new):
 
 
 # (name, expectation, target, file, func anchor, old, new)
-CASES = [
+# the cases of ssa2lean2 (targets generated into Generated/Ssa2, ties in LowProofs/Tie2); run with --gen 2 or --gen all
+CASES2 = [
     # ---- semantic mutations: the tie must break -------------------------------------------------------------
     ("NextOne: loop step i += 64 -> i += 63", "break", "bitmap.NextOne", "bitmap/next.go", "func NextOne(",
      "for ; i < end; i += 64 {", "for ; i < end; i += 63 {"),
@@ -182,6 +184,182 @@ CASES = [
 ]
 
 
+# the cases of ssa2lean3 (targets generated into Generated/Ssa3, ties in LowProofs/Tie3)
+CASES3 = [
+    # ---- semantic mutations: the tie must break -------------------------------------------------------------
+    ("IndexRank64: idx[i] = n -> idx[i] = n + 1", "break", "bitmap.IndexRank64", "bitmap/rank.go", "func IndexRank64(",
+     "\t\tidx[i] = n\n", "\t\tidx[i] = n + 1\n"),
+    ("IndexRank64: trailing = opts[0] -> !opts[0]", "break", "bitmap.IndexRank64", "bitmap/rank.go", "func IndexRank64(",
+     "trailing = opts[0]", "trailing = !opts[0]"),
+    ("IndexRank64: l++ dropped (the trailing store then panics)", "break", "bitmap.IndexRank64", "bitmap/rank.go", "func IndexRank64(",
+     "\tif trailing {\n\t\tl++\n\t}\n", ""),
+    ("IndexRank128: i < len(words)-1 -> i < len(words)", "break", "bitmap.IndexRank128", "bitmap/rank.go", "func IndexRank128(",
+     "if i < len(words)-1 {", "if i < len(words) {"),
+    ("IndexRank128: len(words)&1 == 0 -> == 1", "break", "bitmap.IndexRank128", "bitmap/rank.go", "func IndexRank128(",
+     "if len(words)&1 == 0 {", "if len(words)&1 == 1 {"),
+    ("IndexSelect32: ith&31 -> ith&63", "break", "bitmap.IndexSelect32", "bitmap/select.go", "func IndexSelect32(",
+     "if ith&31 == 0 {", "if ith&63 == 0 {"),
+    ("IndexSelect32: ith := -1 -> ith := 0", "break", "bitmap.IndexSelect32", "bitmap/select.go", "func IndexSelect32(",
+     "ith := -1", "ith := 0"),
+    ("ToArray: i < l -> i <= l", "break", "bitmap.ToArray", "bitmap/toarray.go", "func ToArray(",
+     "for i := int32(0); i < l; i++ {", "for i := int32(0); i <= l; i++ {"),
+    ("ToArray: i&63 -> i&31", "break", "bitmap.ToArray", "bitmap/toarray.go", "func ToArray(",
+     "uint(i&63)", "uint(i&31)"),
+    ("Of: (n + 63) >> 6 -> (n + 64) >> 6", "break", "bitmap.Of", "bitmap/of.go", "func Of(",
+     "nWords := (n + 63) >> 6", "nWords := (n + 64) >> 6"),
+    ("Of: n < max -> n > max", "break", "bitmap.Of", "bitmap/of.go", "func Of(",
+     "if n < max {", "if n > max {"),
+    ("Of: words[wordI] |= -> words[wordI] =", "break", "bitmap.Of", "bitmap/of.go", "func Of(",
+     "words[wordI] |= 1 << uint(i)", "words[wordI] = 1 << uint(i)"),
+    ("Slice: j&63 -> i&63", "break", "bitmap.Slice", "bitmap/slice.go", "func Slice(",
+     "r[j>>6] |= 1 << uint(j&63)", "r[j>>6] |= 1 << uint(i&63)"),
+    ("Slice: (to - from) + 63 -> + 64", "break", "bitmap.Slice", "bitmap/slice.go", "func Slice(",
+     "l := ((to - from) + 63) >> 6", "l := ((to - from) + 64) >> 6"),
+    ("Join: e & Mask[size] -> e", "break", "bitmap.Join", "bitmap/join.go", "func Join(",
+     "(e & Mask[size]) << uint(j&63)", "(e) << uint(j&63)"),
+    ("Join: j := i * size -> i * (size+1)", "break", "bitmap.Join", "bitmap/join.go", "func Join(",
+     "j := i * int(size)", "j := i * int(size+1)"),
+    ("get64Bits: short branch bs[1] << 48 -> << 47", "break", "sigbits.get64Bits", "sigbits/firstdiff.go", "func get64Bits(",
+     "(uint64(bs[1]) << 48)", "(uint64(bs[1]) << 47)"),
+    ("get64Bits: len(s) >= 8 -> len(s) >= 7", "break", "sigbits.get64Bits", "sigbits/firstdiff.go", "func get64Bits(",
+     "if len(s) >= 8 {", "if len(s) >= 7 {"),
+    ("sFirstDiffBit: i<<3 -> i<<2", "break", "sigbits.sFirstDiffBit", "sigbits/firstdiff.go", "func sFirstDiffBit(",
+     "first = i<<3 + first", "first = i<<2 + first"),
+    ("sFirstDiffBit: minl > l2 -> minl < l2", "break", "sigbits.sFirstDiffBit", "sigbits/firstdiff.go", "func sFirstDiffBit(",
+     "if minl > l2 {", "if minl < l2 {"),
+    ("FirstDiffBits: keys[i+1] -> keys[i]", "break", "sigbits.FirstDiffBits", "sigbits/firstdiff.go", "func FirstDiffBits(",
+     "sFirstDiffBit(keys[i], keys[i+1])", "sFirstDiffBit(keys[i], keys[i])"),
+    ("FirstDiffBits: make(l-1) -> make(l)", "break", "sigbits.FirstDiffBits", "sigbits/firstdiff.go", "func FirstDiffBits(",
+     "ds := make([]int32, l-1)", "ds := make([]int32, l)"),
+    ("countPrefixes: d < maxitem-1 -> d <= maxitem-1", "break", "sigbits.countPrefixes", "sigbits/countprefixes.go", "func countPrefixes(",
+     "if d < maxitem-1 {", "if d <= maxitem-1 {"),
+    ("countPrefixes: rst[0] = 1 -> rst[0] = 0", "break", "sigbits.countPrefixes", "sigbits/countprefixes.go", "func countPrefixes(",
+     "rst[0] = 1", "rst[0] = 0"),
+    ("bitWord.FromStr: 8-width*j-width -> 8-width*j", "break", "bitword.bitWord.FromStr", "bitword/bitword.go", ") FromStr(",
+     "uint(8-w.width*j-w.width)", "uint(8-w.width*j)"),
+    ("bitWord.FromStr: make(lenSrc*m) -> make(lenSrc*m+1)", "break", "bitword.bitWord.FromStr", "bitword/bitword.go", ") FromStr(",
+     "words := make([]byte, lenSrc*m)", "words := make([]byte, lenSrc*m+1)"),
+    ("bitWord.ToStr: (len+m-1)/m -> (len+m)/m", "break", "bitword.bitWord.ToStr", "bitword/bitword.go", ") ToStr(",
+     "sz := (len(bs) + m - 1) / m", "sz := (len(bs) + m) / m"),
+    ("bitWord.ToStr: i*m+j < len(bs) -> <=", "break", "bitword.bitWord.ToStr", "bitword/bitword.go", ") ToStr(",
+     "if i*m+j < len(bs) {", "if i*m+j <= len(bs) {"),
+    ("bitstr.New: (8-toBit)&7 -> (7-toBit)&7", "break", "bitstr.New", "bitstr/bitstr.go", "func New(",
+     "bitmap.RMask[(8-toBit)&7]", "bitmap.RMask[(7-toBit)&7]"),
+    ("bitstr.New: (toBit + 7) >> 3 -> (toBit + 8) >> 3", "break", "bitstr.New", "bitstr/bitstr.go", "func New(",
+     "toByte := (toBit + 7) >> 3", "toByte := (toBit + 8) >> 3"),
+    ("AllPaths: p >= to -> p > to", "break", "bmtree.AllPaths", "bmtree/allpaths.go", "func AllPaths(",
+     "if p >= to {", "if p > to {"),
+    ("AllPaths: t = to>>32 + 1 -> to>>32", "break", "bmtree.AllPaths", "bmtree/allpaths.go", "func AllPaths(",
+     "t = to>>32 + 1", "t = to >> 32"),
+    ("Decode: idx&63 -> idx&31", "break", "bmtree.Decode", "bmtree/decode.go", "func Decode(",
+     "uint(idx&63)", "uint(idx&31)"),
+    ("Decode: 1<<63 -> 1<<62", "break", "bmtree.Decode", "bmtree/decode.go", "func Decode(",
+     "AllPaths(bitmapSize, 0, 1<<63)", "AllPaths(bitmapSize, 0, 1<<62)"),
+    ("PathsOf: p != prev -> p == prev", "break", "bmtree.PathsOf", "bmtree/newpath.go", "func PathsOf(",
+     "p != prev {", "p == prev {"),
+    ("PathsOf: prev = p dropped", "break", "bmtree.PathsOf", "bmtree/newpath.go", "func PathsOf(",
+     "\t\tprev = p\n", ""),
+    ("OfMany: base += sizes[i] -> += sizes[i] + 1", "break", "bitmap.OfMany", "bitmap/ofmany.go", "func OfMany(",
+     "base += sizes[i]", "base += sizes[i] + 1"),
+    ("OfMany: r[ith] = base + idx -> r[ith] = idx", "break", "bitmap.OfMany", "bitmap/ofmany.go", "func OfMany(",
+     "r[ith] = base + idx", "r[ith] = idx"),
+    ("IndexSelect32R64: IndexRank64(words, true) -> false", "break", "bitmap.IndexSelect32R64", "bitmap/select.go", "func IndexSelect32R64(",
+     "IndexRank64(words, true)", "IndexRank64(words, false)"),
+    ("IndexSelect32R64: ith&31 -> ith&15", "break", "bitmap.IndexSelect32R64", "bitmap/select.go", "func IndexSelect32R64(",
+     "if ith&31 == 0 {", "if ith&15 == 0 {"),
+    ("SigBits.CountPrefixes: keyEnd-1 -> keyEnd", "break", "sigbits.SigBits.CountPrefixes", "sigbits/sigbits_countprefixes.go", ") CountPrefixes(",
+     "sb.sigbits[keyStart:keyEnd-1]", "sb.sigbits[keyStart:keyEnd]"),
+    ("SigBits.CountPrefixes: keyStart -> keyStart+1", "break", "sigbits.SigBits.CountPrefixes", "sigbits/sigbits_countprefixes.go", ") CountPrefixes(",
+     "sb.sigbits[keyStart:keyEnd-1]", "sb.sigbits[keyStart+1:keyEnd-1]"),
+    ("Builder.Extend: bitEnd >= size -> bitEnd > size", "break", "bitmap.Builder.Extend", "bitmap/builder.go", ") Extend(",
+     "if bitEnd >= size {", "if bitEnd > size {"),
+    ("Builder.Extend: b.Offset += size -> += size + 1", "break", "bitmap.Builder.Extend", "bitmap/builder.go", ") Extend(",
+     "b.Offset += size", "b.Offset += size + 1"),
+    ("Builder.Set: value&1 -> value&3", "break", "bitmap.Builder.Set", "bitmap/builder.go", ") Set(",
+     "uint64(value&1)", "uint64(value&3)"),
+    ("Builder.Set: b.Offset <= bitPosition -> <", "break", "bitmap.Builder.Set", "bitmap/builder.go", ") Set(",
+     "if b.Offset <= bitPosition {", "if b.Offset < bitPosition {"),
+    ("TailBitmap.Set: wordIdx == 0 -> wordIdx == 1", "break", "bitmap.TailBitmap.Set", "bitmap/tailbitmap.go", ") Set(",
+     "if wordIdx == 0 {", "if wordIdx == 1 {"),
+    ("TailBitmap.Set: Bit[idx&63] -> Bit[idx&31]", "break", "bitmap.TailBitmap.Set", "bitmap/tailbitmap.go", ") Set(",
+     "tb.Words[wordIdx] |= Bit[idx&63]", "tb.Words[wordIdx] |= Bit[idx&31]"),
+    ("TailBitmap.Compact: tb.Offset += 64 -> += 63", "break", "bitmap.TailBitmap.Compact", "bitmap/tailbitmap.go", ") Compact(",
+     "tb.Offset += 64", "tb.Offset += 63"),
+    ("TailBitmap.Compact: >= reclaimThreshold -> >", "break", "bitmap.TailBitmap.Compact", "bitmap/tailbitmap.go", ") Compact(",
+     "tb.Offset-tb.reclaimed >= reclaimThreshold", "tb.Offset-tb.reclaimed > reclaimThreshold"),
+    ("TailBitmap.Get: idx>>6 -> idx>>5", "break", "bitmap.TailBitmap.Get", "bitmap/tailbitmap.go", ") Get(",
+     "tb.Words[idx>>6] & Bit[idx&63]", "tb.Words[idx>>5] & Bit[idx&63]"),
+    ("TailBitmap.Get: idx < tb.Offset -> idx <= tb.Offset", "break", "bitmap.TailBitmap.Get", "bitmap/tailbitmap.go", ") Get(",
+     "if idx < tb.Offset {", "if idx <= tb.Offset {"),
+    ("TailBitmap.Get1: & 1 -> & 3", "break", "bitmap.TailBitmap.Get1", "bitmap/tailbitmap.go", ") Get1(",
+     "uint(idx&63)) & 1", "uint(idx&63)) & 3"),
+    ("TailBitmap.Get1: idx>>6 -> idx>>7", "break", "bitmap.TailBitmap.Get1", "bitmap/tailbitmap.go", ") Get1(",
+     "tb.Words[idx>>6] >>", "tb.Words[idx>>7] >>"),
+    # ---- rewrites that do not change the SSA: the tie must survive ------------------------------------------
+    ("Of: comment and blank line in the loop", "survive", "bitmap.Of", "bitmap/of.go", "func Of(",
+     "\t\twordI := i >> 6\n", "\t\t// the word\n\n\t\twordI := i >> 6\n"),
+    ("AllPaths: comment in the inner loop", "survive", "bmtree.AllPaths", "bmtree/allpaths.go", "func AllPaths(",
+     "\t\t\tm := bitmap.Mask[tz]\n", "\t\t\t// mask of the level\n\t\t\tm := bitmap.Mask[tz]\n"),
+    # ---- harmless rewrites that change the SSA: outcome reported --------------------------------------------
+    ("IndexRank64: `idx[i] = n` after the count is read", "report", "bitmap.IndexRank64", "bitmap/rank.go", "func IndexRank64(",
+     "\t\tidx[i] = n\n\t\tn += int32(bits.OnesCount64(words[i]))\n", "\t\tc := int32(bits.OnesCount64(words[i]))\n\t\tidx[i] = n\n\t\tn += c\n"),
+    ("IndexRank128: the clone `append(idx[:0:0], idx...)` dropped (same contents, other capacity)", "report", "bitmap.IndexRank128",
+     "bitmap/rank.go", "func IndexRank128(", "\tidx = append(idx[:0:0], idx...)\n", ""),
+    ("ToArray: `i++` -> `i += 1`", "report", "bitmap.ToArray", "bitmap/toarray.go", "func ToArray(",
+     "for i := int32(0); i < l; i++ {", "for i := int32(0); i < l; i += 1 {"),
+    ("Join: (l+63)&(^63)>>6 -> (l+63)>>6 (the same number)", "report", "bitmap.Join", "bitmap/join.go", "func Join(",
+     "(l+63)&(^63)>>6", "(l+63)>>6"),
+    ("Slice: `r[j>>6] |= …` written as `r[j>>6] = r[j>>6] | …`", "report", "bitmap.Slice", "bitmap/slice.go", "func Slice(",
+     "r[j>>6] |= 1 << uint(j&63)", "r[j>>6] = r[j>>6] | 1<<uint(j&63)"),
+    ("sFirstDiffBit: loop step i += 8 -> i += 4 (overlapping windows find the same first difference)", "report", "sigbits.sFirstDiffBit",
+     "sigbits/firstdiff.go", "func sFirstDiffBit(", "i += 8 {", "i += 4 {"),
+    ("TailBitmap.Compact: the dropped copy is stored (`tb.Words = newWords`: same contents, other capacity)", "report",
+     "bitmap.TailBitmap.Compact", "bitmap/tailbitmap.go", ") Compact(",
+     "\t\tcopy(newWords, tb.Words)\n", "\t\tcopy(newWords, tb.Words)\n\t\ttb.Words = newWords\n"),
+    ("PathsOf: make([]uint64, 0, l) -> make([]uint64, 0, l+1) (another capacity)", "report", "bmtree.PathsOf", "bmtree/newpath.go",
+     "func PathsOf(", "rst := make([]uint64, 0, l)", "rst := make([]uint64, 0, l+1)"),
+    # ---- outside the supported subset: the translator must refuse -------------------------------------------
+    ("ToArray: a store into the parameter slice", "unsupported", "bitmap.ToArray", "bitmap/toarray.go", "func ToArray(",
+     "\tl := int32(len(words) * 64)\n", "\tl := int32(len(words) * 64)\n\tif l > 0 {\n\t\twords[0] |= 0\n\t}\n"),
+    ("ToArray: copy into the parameter slice", "unsupported", "bitmap.ToArray", "bitmap/toarray.go", "func ToArray(",
+     "\tl := int32(len(words) * 64)\n", "\tl := int32(len(words) * 64)\n\tcopy(words, words[1:])\n"),
+    ("ToArray: append to the parameter slice", "unsupported", "bitmap.ToArray", "bitmap/toarray.go", "func ToArray(",
+     "\tl := int32(len(words) * 64)\n", "\tl := int32(len(words) * 64)\n\twords = append(words, 0)\n"),
+    ("ToArray: two live views — the old value of r is read after the append", "unsupported", "bitmap.ToArray", "bitmap/toarray.go",
+     "func ToArray(", "\t\t\tr = append(r, i)\n", "\t\t\told := r\n\t\t\tr = append(r, i)\n\t\t\tif len(old) > 5 {\n\t\t\t\ti++\n\t\t\t}\n"),
+    ("ToArray: two live views — both are appended to", "unsupported", "bitmap.ToArray", "bitmap/toarray.go",
+     "func ToArray(", "\t\t\tr = append(r, i)\n", "\t\t\tr2 := append(r, i)\n\t\t\tr = append(r, i+1)\n\t\t\tr = append(r, r2...)\n"),
+    ("ToArray: the allocated slice is re-sliced with an upper bound (could exceed len within cap)", "unsupported", "bitmap.ToArray",
+     "bitmap/toarray.go", "func ToArray(", "\treturn r\n", "\treturn r[:len(words)]\n"),
+    ("ToArray: cap() of the allocated slice", "unsupported", "bitmap.ToArray", "bitmap/toarray.go", "func ToArray(",
+     "\treturn r\n", "\tif cap(r) > 100 {\n\t\treturn nil\n\t}\n\treturn r\n"),
+    ("Slice: a phi merges the allocated slice with the parameter", "unsupported", "bitmap.Slice", "bitmap/slice.go", "func Slice(",
+     "\tr := make([]uint64, l)\n", "\tr := make([]uint64, l)\n\tif from == 0 {\n\t\tr = words\n\t}\n"),
+    ("Slice: an element is written through a stale view after re-slicing", "unsupported", "bitmap.Slice", "bitmap/slice.go", "func Slice(",
+     "\treturn r\n", "\tr2 := r[1:]\n\tr[0] = 1\n\treturn r2\n"),
+    ("Builder.Set: the receiver's slice is set to nil (not memory of the function)", "unsupported", "bitmap.Builder.Set", "bitmap/builder.go",
+     ") Set(", "\tif b.Offset <= bitPosition {", "\tif value == 7 {\n\t\tb.Words = nil\n\t}\n\tif b.Offset <= bitPosition {"),
+    ("TailBitmap.Set: a view of the receiver's slice is written after the field was re-assigned", "unsupported", "bitmap.TailBitmap.Set",
+     "bitmap/tailbitmap.go", ") Set(", "\ttb.Words[wordIdx] |= Bit[idx&63]\n",
+     "\tws := tb.Words\n\ttb.Words = append(tb.Words, 0)\n\tws[wordIdx] |= Bit[idx&63]\n"),
+    ("TailBitmap.Set: an appended view is stored back after the field's memory was written through another view", "unsupported",
+     "bitmap.TailBitmap.Set", "bitmap/tailbitmap.go", ") Set(", "\ttb.Words[wordIdx] |= Bit[idx&63]\n",
+     "\tgrown := append(tb.Words, 0)\n\ttb.Words[wordIdx] |= Bit[idx&63]\n\ttb.Words = grown\n"),
+    ("TailBitmap.Set: an element address is read after the field's memory was written through another load of the field", "unsupported",
+     "bitmap.TailBitmap.Set", "bitmap/tailbitmap.go", ") Set(", "\ttb.Words[wordIdx] |= Bit[idx&63]\n",
+     "\tp, q := tb.Words, tb.Words\n\tx := &p[wordIdx]\n\tq[wordIdx] = 0\n\ttb.Words[wordIdx] |= Bit[idx&63] | *x\n"),
+    ("bitmap does not compile", "nobuild", "bitmap.ToArray", "bitmap/toarray.go", "func ToArray(",
+     "\treturn r\n", "\treturn r +\n"),
+]
+
+
+GEN2_TARGETS = set(c[2] for c in CASES2)
+
+
+def gen_of(target):
+    return 2 if target in GEN2_TARGETS else 3
+
+
 def lean_name(target):
     return target.replace(".", "_")
 
@@ -193,12 +371,12 @@ def mod_file(lean_dir, mod):
     return os.path.join(lean_dir, *mod.split(".")) + ".lean"
 
 
-def inline(lean_dir, gen_text, lname):
+def inline(lean_dir, gen_text, lname, gen):
     """One self-contained Lean file: the regenerated text in place of `Generated.Ssa2.<lname>`, followed by the text of
     every project module between it and the tie file (the tie file itself, and helper modules such as
     `LowProofs.Tie2.<x>_L` that import the generated module), in dependency order; all other imports stay imports
     (of modules built from the unmodified source)."""
-    target = "Generated.Ssa2." + lname
+    target = "Generated.Ssa%d.%s" % (gen, lname)
     texts, dep_memo = {target: gen_text}, {}
 
     def text_of(mod):
@@ -231,9 +409,9 @@ def inline(lean_dir, gen_text, lname):
                 extern.append(imp)
         order.append(mod)
 
-    visit("LowProofs.Tie2." + lname)
+    visit("LowProofs.Tie%d.%s" % (gen, lname))
     if target not in seen:
-        raise SystemExit("selftest: LowProofs.Tie2.%s does not import %s" % (lname, target))
+        raise SystemExit("selftest: LowProofs.Tie%d.%s does not import %s" % (gen, lname, target))
     body = []
     for mod in order:
         t = IMPORT_RE.sub("", text_of(mod))
@@ -285,8 +463,18 @@ def run_case(args, scratch, idx, case):
     gen_only = os.path.join(d, "GenOnly.lean")
     open(gen_only, "w").write(gen_text)
     gen_ok, gen_errs = lean_check(args.lean, gen_only)
+    tie_file = os.path.join(args.lean, "LowProofs", "Tie%d" % gen_of(target), lname + ".lean")
+    if not os.path.exists(tie_file):
+        # no tie theorem yet: check what the translator does, nothing else
+        res.update({"generated_compiles": gen_ok, "unsupported": unsupported, "no_tie": True})
+        if expect == "unsupported":
+            res["ok"] = r.returncode == 2 and unsupported and gen_ok
+        else:
+            res["ok"] = r.returncode == 0 and gen_ok and not unsupported
+        res["outcome"] = "NO TIE FILE: translator behaves as expected" if res["ok"] else "UNEXPECTED (no tie file): see fields"
+        return res
     scratch_tie = os.path.join(d, "Tie.lean")
-    open(scratch_tie, "w").write(inline(args.lean, gen_text, lname))
+    open(scratch_tie, "w").write(inline(args.lean, gen_text, lname, gen_of(target)))
     tie_ok, tie_errs = lean_check(args.lean, scratch_tie)
     res.update({"generated_compiles": gen_ok, "tie_compiles": tie_ok, "unsupported": unsupported,
                 "first_error": (tie_errs[0][:200] if tie_errs else "")})
@@ -314,7 +502,8 @@ def main():
     ap = argparse.ArgumentParser()
     ap.add_argument("--repo", default="/repo")
     ap.add_argument("--lean", default="/verif/lean")
-    ap.add_argument("--bin", default=os.path.join(HERE, "bin", "ssa2lean2"))
+    ap.add_argument("--bin", default=os.path.join(HERE, "bin", "ssa2lean3"))
+    ap.add_argument("--gen", default="3", help="3: the cases of ssa2lean3 (default); 2: those of ssa2lean2; all")
     ap.add_argument("--worktree", action="store_true", help="copy the working tree of --repo instead of exporting HEAD")
     ap.add_argument("--only", default="", help="run only the cases (and baselines) whose name or target contains this text")
     ap.add_argument("--json", default="")
@@ -326,17 +515,18 @@ def main():
 
     r = subprocess.run(["go", "build", "-o", args.bin, "."], cwd=HERE, env=ENV, capture_output=True, text=True)
     if r.returncode != 0:
-        raise SystemExit("selftest: cannot build ssa2lean2:\n" + r.stderr)
+        raise SystemExit("selftest: cannot build ssa2lean3:\n" + r.stderr)
 
     # the scratch ties import already-built modules: make sure they are built (through the project lock)
-    all_cases = [c for c in CASES if args.only in c[0] or args.only in c[2]]
-    tie_dir = os.path.join(args.lean, "LowProofs", "Tie2")
+    pool = {"3": CASES3, "2": CASES2, "all": CASES3 + CASES2}[args.gen]
+    all_cases = [c for c in pool if args.only in c[0] or args.only in c[2]]
     mods = set()
     for c in all_cases:
-        f = os.path.join(tie_dir, lean_name(c[2]) + ".lean")
+        g = gen_of(c[2])
+        f = os.path.join(args.lean, "LowProofs", "Tie%d" % g, lean_name(c[2]) + ".lean")
         if not os.path.exists(f):
-            raise SystemExit("selftest: no tie file " + f)
-        mods.add("LowProofs.Tie2." + lean_name(c[2]))
+            continue  # a target without a tie yet: only the translator's behaviour is checked (see run_case)
+        mods.add("LowProofs.Tie%d.%s" % (g, lean_name(c[2])))
     lock = os.path.join(os.path.dirname(args.lean), "work", ".lake.lock")
     cmd = ["lake", "build"] + sorted(mods)
     if os.path.exists(os.path.dirname(lock)):
@@ -351,7 +541,7 @@ def main():
             targets.append(c[2])
     cases = [("baseline " + t, "baseline", t, None, None, None, None) for t in targets] + all_cases
 
-    scratch = tempfile.mkdtemp(prefix="ssa2lean2-selftest-", dir="/tmp")
+    scratch = tempfile.mkdtemp(prefix="ssa2lean3-selftest-", dir="/tmp")
     results = []
     try:
         # a clean copy of the repo: `git archive HEAD` (the working tree may be in use), or the tree as it is
